@@ -69,7 +69,7 @@ MathXtra(op) == CASE op = "Log1pExp" -> {10, 12, 13, 14, 15, 16}       \* the br
                   [] op \in {"Sqrt", "Log", "Log1p", "Lgamma"} -> {10, 15, 29}
                   [] op = "Gamma" -> {10}
                   [] OTHER -> {}
-Math2Set == {1, 2, 3, 4, 5, 6, 41, 42, 44, 54, 55, 56}
+Math2Set == {1, 2, 3, 4, 5, 6, 15, 21, 41, 42, 44, 54, 55, 56}
 Pick(T, S) == SortedSeq({i \in S : Holds(T, G[i])})
 CmpVals  == [T \in AllTypes |-> Pick(T, CmpSet)]
 RingVals == [T \in AllTypes |-> Pick(T, RingSet)]
@@ -101,7 +101,8 @@ AllGroups ==
   {Grp("param", op, R) : op \in SeqSet(ParOps), R \in WritableTypes} \cup
   {Grp("vec", op, R)   : op \in SeqSet(VecOps), R \in WritableTypes} \cup
   {Grp("conv", "-", T) : T \in AllTypes} \cup
-  {Grp("new", "-", T)  : T \in AllTypes}
+  {Grp("new", "-", T)  : T \in AllTypes} \cup
+  {Grp("pkg", "-", "-")}
 \* the group "contract" evaluates ContractOK (below): inside an action, because TLC caches operator
 \* arguments only while it evaluates a next-state relation (the long division is exponential without)
 Groups == (IF Part = "all" THEN AllGroups ELSE {g \in AllGroups : g.c = Part}) \cup {Grp("contract", "-", "-")}
@@ -115,6 +116,7 @@ NoVec == <<>>
 Case(c, op, r, args, par, exp, ty) ==
   IF par = VZero THEN [g |-> c, op |-> op, r |-> r, args |-> args, exp |-> exp, ty |-> ty]
   ELSE [g |-> c, op |-> op, r |-> r, args |-> args, par |-> par, exp |-> exp, ty |-> ty]
+PCase(c, op, r, args, par, exp) == [g |-> c, op |-> op, r |-> r, args |-> args, par |-> par, exp |-> exp, ty |-> ""]
 VCase(op, r, et, vec, vec2, par, exp) ==
   [g |-> "vec", op |-> op, r |-> r, par |-> par, et |-> et, vec |-> vec, vec2 |-> vec2, exp |-> exp]
 Emit(c) == PrintT(ToJson(c))
@@ -125,16 +127,10 @@ EvalType(R) == IF Cls(R) = "float" THEN R ELSE "float64"
 Lost(own, x) == (IsInfV(x) /\ ~IsInfV(own)) \/ x.k = "idef"
 
 (* -- un: Set, Neg, Abs ------------------------------------------------- *)
-UnExp(op, R, x) ==
-  IF x.k = "idef" THEN IDef
-  ELSE IF op = "Set" THEN x
-  ELSE IF Cls(R) = "int" THEN (IF op = "Neg" THEN IntNeg(R, x) ELSE IntAbs(R, x))
-  ELSE IF op = "Neg" THEN (IF IsZeroV(x) THEN VZero ELSE NegV(x))
-  ELSE IF IsNaN(x) THEN AnyRes ELSE IF IsZeroV(x) THEN VTok("pzero") ELSE AbsV(x)
 EmitUn(op, R) ==
   \A T \in AllTypes : \A p \in 1..Len(ValsOf[T]) :
     LET v == G[ValsOf[T][p]] IN
-    Emit(Case("un", op, R, <<Arg(T, v)>>, VZero, UnExp(op, R, View(R, T, v)), ""))
+    Emit(Case("un", op, R, <<Arg(T, v)>>, VZero, UnaryExact(op, R, v, View(R, T, v)), ""))
 
 (* -- self: Sign, getters, clones ---------------------------------------- *)
 Getter(B) == CASE B = "int8" -> "GetInt8" [] B = "int16" -> "GetInt16" [] B = "int32" -> "GetInt32"
@@ -170,9 +166,13 @@ Selected(o, R, T1, T2, p, q) ==
   \/ (Hash(o, TIdx(R), TIdx(T1), TIdx(T2), p, q) + Seed) % K = 0
 
 (* -- cmp: Greater, Smaller, Equals (epsilon 1/8) -------------------------- *)
-EqualsRes(T, x, y) ==
+\* Equals(b, epsilon) is demanded where comparing in the receiver's representation and comparing the
+\* operands' own values say the same (vb: the operand's own value, y: its view)
+EqualsRes(T, x, vb, y) ==
   LET c == Cmp(x, y) IN
-  IF c = "na" THEN Undef(x, y) ELSE VBool(c = "eq")     \* distinct grid values differ by >= 1/4
+  IF c = "na" THEN Undef(x, y)
+  ELSE IF y # vb THEN AnyRes
+  ELSE VBool(c = "eq")     \* distinct grid values differ by >= 1/4
 EmitCmp(Ta) ==
   \A Tb \in AllTypes : \A p \in 1..Len(CmpVals[Ta]) : \A q \in 1..Len(CmpVals[Tb]) :
     (Ta = Tb \/ (p + 2 * q + TIdx(Tb)) % 3 = 0 \/ (Hash(20, TIdx(Ta), TIdx(Tb), 1, p, q) + Seed) % K = 0) =>
@@ -181,7 +181,7 @@ EmitCmp(Ta) ==
         a  == <<Arg(Ta, va), Arg(Tb, vb)>>
     IN /\ Emit(Case("cmp", "Greater", "", a, VZero, GreaterRes(va, y), ""))
        /\ Emit(Case("cmp", "Smaller", "", a, VZero, SmallerRes(va, y), ""))
-       /\ Emit(Case("cmp", "Equals", "", a, VRat(1, 8), EqualsRes(Ta, va, y), ""))
+       /\ Emit(Case("cmp", "Equals", "", a, VRat(1, 8), EqualsRes(Ta, va, vb, y), ""))
 
 (* -- ring: Add Sub Mul Div Min Max ----------------------------------------- *)
 RingExp(op, R, v1, v2, x, y) ==
@@ -209,13 +209,17 @@ Math1Exp(op, R, v, x) ==
        THEN (IF Cls(R) = "int" /\ s.k = "tok" THEN IDef ELSE s)
        ELSE VTerm(Meaning1(op, X(1)))
 Math1Vals == [op \in SeqSet(Math1Ops) |-> [T \in AllTypes |-> Pick(T, MathSet \cup MathXtra(op))]]
+Composite1 == {"Log1pExp", "Logistic", "Sigmoid"}
 EmitMath1(op, R) ==
   \A T \in AllTypes :
     \A p \in 1..Len(Math1Vals[op][T]) :
       LET v == G[Math1Vals[op][T][p]]
           x == View(EvalType(R), T, v)
-      IN \* integer receivers: ordinary points only; everybody: inside the domain
-         (/\ (Cls(R) = "int" => v.k \in {"int", "rat"})
+      IN \* integer receivers: integer operands only (the operand then is the same number in the
+         \* receiver's representation), small ones for the operations that are compositions of
+         \* other operations (every intermediate result is an integer of the receiver's type);
+         \* everybody: inside the domain
+         (/\ (Cls(R) = "int" => v.k = "int" /\ (op \in Composite1 => SmallB(v.b) /\ RAbs(ToInt(v.b)) <= 3))
           /\ (IsSpecialOperand(x) \/ Lost(v, x) \/ InDomain1(op, x)))
          => Emit(Case("math1", op, R, <<Arg(T, v)>>, VZero, Math1Exp(op, R, v, x), ""))
 
@@ -233,9 +237,22 @@ EmitMath2(op, R) ==
       LET v1 == G[Math2Vals[T1][p]]  v2 == G[Math2Vals[T2][q]]
           x  == View(EvalType(R), T1, v1)  y == View(EvalType(R), T2, v2)
       IN (/\ Selected(o, R, T1, T2, p, q)
-          /\ (Cls(R) = "int" => v1.k \in {"int", "rat"} /\ v2.k \in {"int", "rat"})
+          /\ (Cls(R) = "int" => v1.k = "int" /\ v2.k = "int")
           /\ (Special2(op, x, y) # NoSpecial \/ InDomain2(op, x, y)))
          => Emit(Case("math2", op, R, <<Arg(T1, v1), Arg(T2, v2)>>, VZero, Math2Exp(op, R, v1, v2, x, y), ""))
+
+(* -- pkg: the float64 functions logarithmetic.LogAdd / LogSub and special.LogErfc ---------- *)
+Math2ValsF == Pick("float64", Math2Set)
+LogErfcValsF == Pick("float64", MathSet \cup MathXtra("LogErfc"))
+EmitPkg ==
+  /\ \A op \in {"LogAdd", "LogSub"} : \A p \in 1..Len(Math2ValsF) : \A q \in 1..Len(Math2ValsF) :
+       LET v1 == G[Math2ValsF[p]]  v2 == G[Math2ValsF[q]] IN
+       (Special2(op, v1, v2) # NoSpecial \/ InDomain2(op, v1, v2)) =>
+         Emit(Case("pkg", op, "", <<Arg("float64", v1), Arg("float64", v2)>>, VZero,
+                   Math2Exp(op, "Float64", v1, v2, v1, v2), ""))
+  /\ \A p \in 1..Len(LogErfcValsF) :
+       LET v == G[LogErfcValsF[p]] IN
+       Emit(Case("pkg", "LogErfc", "", <<Arg("float64", v)>>, VZero, Math1Exp("LogErfc", "Float64", v, v), ""))
 
 (* -- param: Mlgamma(x, k), GammaP(a, x), BesselI(v, x), LogBesselI(v, x) ------ *)
 ParSet(op) == IF op = "Mlgamma" THEN {VI(1), VI(2), VI(3)}
@@ -248,15 +265,16 @@ EmitParam(op, R) ==
   \A T \in AllTypes : \A par \in ParSet(op) :
     \A p \in 1..Len(ParVals[op][T]) :
       LET v == G[ParVals[op][T][p]] IN
-      Emit(Case("param", op, R, <<Arg(T, v)>>, par, VTerm(MeaningP(op, RatOfV(par), X(1))), ""))
+      (Cls(R) = "int" => v.k = "int") =>
+      Emit(PCase("param", op, R, <<Arg(T, v)>>, par, VTerm(MeaningP(op, RatOfV(par), X(1)))))
 
 (* -- vec: reductions over dense vectors / matrices of element type ET -------- *)
 IntVecs  == << <<4>>, <<8, 6>>, <<2, 4, 6>>, <<1, 5>>, <<7, 4, 2>>, <<3, 9>> >>        \* grid indices
 FltVecs  == << <<41, 44>>, <<43, 2, 46>>, <<45, 4>> >>
 IntVecs2 == << <<6>>, <<2, 7>>, <<3, 2, 4>>, <<4, 4>>, <<2, 3, 8>>, <<8, 5>> >>
 FltVecs2 == << <<44, 41>>, <<4, 46, 42>>, <<43, 48>> >>
-PosVecs  == << <<4>>, <<4, 6>>, <<2, 4, 6>>, <<2, 8>> >>
-PosFlt   == << <<41, 44>>, <<43, 2, 46>> >>
+PosVecs  == << <<4>>, <<4, 6>>, <<2, 4, 6>>, <<6, 2>> >>
+PosFlt   == << <<41, 44>>, <<43, 2, 46>>, <<2, 8>> >>
 Mats     == << <<4, 3, 2, 6>>, <<2, 1, 1, 2>>, <<7, 4, 8, 2>> >>                       \* 2x2, row major
 FltMats  == << <<41, 44, 4, 43>> >>
 ValsAt(s) == [k \in 1..Len(s) |-> G[s[k]]]
@@ -267,13 +285,16 @@ VecExpTerm(op, n, alpha) ==
   ELSE MeaningV(op, XSeq(0, n), XSeq(n, n), alpha)
 EmitVec(op, R) ==
   \A ET \in WritableTypes :
-    LET fl == Cls(ET) = "float"
+    LET fl == Cls(ET) = "float" /\ Cls(R) = "float"     \* integer receivers: integer elements, small ones
         vs == IF op \in {"Mtrace", "Mnorm"} THEN (IF fl THEN Mats \o FltMats ELSE Mats)
               ELSE IF op \in {"SmoothMax", "LogSmoothMax"} THEN (IF fl THEN PosVecs \o PosFlt ELSE PosVecs)
               ELSE (IF fl THEN IntVecs \o FltVecs ELSE IntVecs)
         ws == IF fl THEN IntVecs2 \o FltVecs2 ELSE IntVecs2
-        alphas == IF op \in {"SmoothMax", "LogSmoothMax"} THEN {VI(1), VI(2)} ELSE {VZero}
-    IN \A i \in 1..Len(vs) : \A al \in alphas :
+        alphas == IF op \in {"SmoothMax", "LogSmoothMax"}
+                  THEN (IF Cls(R) = "int" THEN {VI(1)} ELSE {VI(1), VI(2)}) ELSE {VZero}
+    IN \* (an integer receiver has no log scale)
+       (Cls(R) = "int" => op # "LogSmoothMax") =>
+       \A i \in 1..Len(vs) : \A al \in alphas :
          LET n == Len(vs[i])
              second == IF op = "VdotV" THEN ValsAt(ws[i]) ELSE NoVec
          IN Emit(VCase(op, R, ET, ValsAt(vs[i]), second, al, VTerm(VecExpTerm(op, n, RatOfV(al)))))
@@ -350,6 +371,7 @@ EmitGroup(g) ==
     [] g.c = "vec"    -> EmitVec(g.op, g.t)
     [] g.c = "conv"   -> EmitConv(g.t)
     [] g.c = "new"    -> EmitNew(g.t)
+    [] g.c = "pkg"    -> EmitPkg
 
 (* ------------------------------------------------------------ state machine *)
 Meta == [g |-> "meta", intwidth |-> IntWidth, orders |-> <<0, 1, 2>>, seed |-> Seed, k |-> K,
